@@ -705,6 +705,11 @@ func init() {
 		},
 		Gen: genC16, Check: checkC16, Classify: classifyC16,
 		Sweep: func(tier string, emit func(*CaseC16)) {
+			// refine-only calls on nested voxels with 2^16 .. 2^18 results, permuted and with a duplicated entry
+			for _, t := range [][2]int64{{15, 16}, {16, 16}} {
+				bs := []ref.Box{{H: 10, X: 3, Y: 1020, V: 10, F: -2}, {H: 11, X: 7, Y: 2041, V: 11, F: -3}}
+				emit(&CaseC16{Op: "zoom", C03: &CaseC03{Boxes: bs, H: t[0], V: t[1]}, Perm: []int{1, 0}, Dup: []int{1}})
+			}
 			if tier == "quick" {
 				return
 			}
@@ -723,10 +728,11 @@ func init() {
 			}
 		},
 		SweepScopes: func(tier string) []string {
+			small := "2 refine-only zoom changes of a nested pair with 2^16 / 2^18 output IDs, permuted and with a duplicated entry"
 			if tier == "quick" {
-				return nil
+				return []string{small}
 			}
-			return []string{"2 zoom changes with more than 2^20 output IDs (crossing-zoom / nested inputs), repeated, permuted and with a duplicated entry"}
+			return []string{small, "2 zoom changes with more than 2^20 output IDs (crossing-zoom / nested inputs), repeated, permuted and with a duplicated entry"}
 		},
 		ReplayRuns: 16,
 	})
